@@ -103,8 +103,39 @@ mod ffihub {
         pub fn mk_d(&self) -> Option<Box<NsD>> { None }
     }
     impl NsB { pub fn peer(&self, c: &NsC, h: &Hub) -> NsE { NsE::P } }
+    // several related lifetimes in one signature (sets of lifetimes are printed by some backends)
+    #[diplomat::opaque]
+    pub struct View<'v>(pub &'v Hub);
+    impl Hub {
+        pub fn view3<'a, 'b: 'a, 'c: 'b>(&'a self, x: &'b NsA, y: &'c NsB) -> Box<View<'a>> { Box::new(View(self)) }
+        pub fn view4<'a, 'b: 'a, 'c: 'a, 'd: 'b + 'c>(&'a self, x: &'b NsA, y: &'c NsB, z: &'d NsC) -> Box<View<'a>> { Box::new(View(self)) }
+    }
 }
 """
+
+# locality with traits and callbacks around: adding a type nothing refers to must leave every other file alone
+FIX_BASE = """#[diplomat::bridge]
+mod ffi {
+    pub struct Point { pub x: i32, pub y: i32 }
+    pub trait Listener {
+        fn on_point(&self, p: Point) -> i32;
+        fn on_tick(&self);
+    }
+    #[diplomat::opaque]
+    pub struct Emitter(pub u8);
+    impl Emitter {
+        pub fn new() -> Box<Emitter> { Box::new(Emitter(0)) }
+        pub fn each(f: impl Fn(i32) -> i32, x: i32) -> i32 { f(x) }
+        pub fn listen(l: impl Listener, x: i32) -> i32 { l.on_point(Point { x, y: 2 }) }
+    }
+    #[diplomat::opaque]
+    pub struct Aquiet(pub u8);
+    impl Aquiet { pub fn id(&self) -> u8 { self.0 } }
+%s}
+"""
+FIX_EXTRAS = {"enum": "    pub enum ZzUnrelated { A, B }\n", "struct": "    pub struct ZzUnrelated { pub v: u8 }\n",
+              "opaque": "    #[diplomat::opaque]\n    pub struct ZzUnrelated(pub u8);\n", "early_enum": "    pub enum AaUnrelated { A, B }\n"}
+
 
 
 def permute(mods, rng):
@@ -170,6 +201,23 @@ def check(ctx, replay=None):
         if viol < 4:
             viol += 1
             ctx.violation(key, obj, True)
+    # fixed locality pairs
+    for b in BACKENDS:
+        o0 = os.path.join(d, f"fix_{b}_base")
+        open(os.path.join(d, "fix_base.rs"), "w").write(FIX_BASE % "")
+        q0 = e2e.run_tool(b, os.path.join(d, "fix_base.rs"), o0, config=CFG); runs += 1
+        for tag, extra in FIX_EXTRAS.items():
+            open(os.path.join(d, f"fix_{tag}.rs"), "w").write(FIX_BASE % extra)
+            o1 = os.path.join(d, f"fix_{b}_{tag}")
+            q1 = e2e.run_tool(b, os.path.join(d, f"fix_{tag}.rs"), o1, config=CFG); runs += 1
+            if (q0.returncode == 0) != (q1.returncode == 0):
+                violate(f"direct:accept:{b}", {"backend": b, "what": "adding an unreferenced type changes whether the bridge is accepted", "stderr": (q0.stderr + q1.stderr)[-600:], "src": FIX_BASE % extra})
+            elif q0.returncode == 0:
+                dd = diff_dirs(o0, o1, ignore=lambda k: "Unrelated" in k or INDEX_FILES.search(os.path.basename(k)) is not None)
+                if dd:
+                    violate(f"direct:local:{b}", {"backend": b, "what": f"adding the unreferenced {tag.replace('early_', '')} {'Aa' if 'early' in tag else 'Zz'}Unrelated changes other types' files {dd[:5]}", "src": FIX_BASE % extra})
+            shutil.rmtree(o1, ignore_errors=True)
+        shutil.rmtree(o0, ignore_errors=True)
     nsets = 2 if ctx.quick() else 12
     nperm = 3 if ctx.quick() else 10
     backends = BACKENDS
